@@ -52,6 +52,11 @@ def finish(res, spec):
                                               "broken_obligations": res.broken[:20]})
         lines.append("VIOLATION property=%s replay=%s no-failing-input-found" % (res.pid, path))
         exit_code = 1
+    if not res.samples:
+        from harness import ip_checks
+        res.samples = list(ip_checks.SAMPLE_BUF[:6])
+    if not res.samples and res.violations:
+        res.samples = [res.violations[0]]
     wall = time.time() - res.t0
     ev = {
         "property_id": res.pid, "tier": res.tier, "seed": res.seed, "level": "proof",
